@@ -631,6 +631,19 @@ func (f *Frame) atPoint(where string, st *State, b *ssa.BasicBlock, idx int) {
 				extra["$result"] = TV{T: f.lastCallResult.T, Ty: f.lastCallResult.Ty}
 			}
 		}
+		if f.beforeArgs != nil {
+			// callee parameter names are visible at "before" anchors, but never shadow the caller's own variables
+			if extra == nil {
+				extra = map[string]TV{}
+			}
+			for k, v := range f.beforeArgs {
+				if strings.HasPrefix(k, "$") {
+					extra[k] = v
+				} else if _, _, found := f.lookupName(k, b, idx); !found {
+					extra[k] = v
+				}
+			}
+		}
 		env := f.pointEnv(st, b, idx, extra)
 		for i, c := range at.Clauses {
 			switch c.Kind {
